@@ -36,6 +36,17 @@ func (e *Engine) traceSig(f string) []types.Type {
 			out = append(out, sig.Params().At(i).Type())
 		}
 	} else if i := strings.LastIndex(f, "."); i > 0 {
+		// imported function pkg.Func
+		for _, imp := range e.pkg.Types.Imports() {
+			if imp.Name() == f[:i] {
+				if fn, ok := imp.Scope().Lookup(f[i+1:]).(*types.Func); ok {
+					sig := fn.Type().(*types.Signature)
+					for k := 0; k < sig.Params().Len(); k++ {
+						out = append(out, sig.Params().At(k).Type())
+					}
+				}
+			}
+		}
 		// Type.Method (interface) or Struct.field (func value)
 		tn, _ := e.pkg.Types.Scope().Lookup(f[:i]).(*types.TypeName)
 		if tn != nil {
@@ -90,9 +101,101 @@ func (c *FuncCtx) traceArr(st *State, f string, i int) string {
 	return name
 }
 
+// traceClock is a global ghost counter ticking at every traced call.
+func (c *FuncCtx) traceClock(st *State) string {
+	k := "τ|$clock"
+	if t, ok := st.heap[k]; ok {
+		return t
+	}
+	c.declOnce("T_clock", "Int")
+	st.heap[k] = "T_clock"
+	return "T_clock"
+}
+
+func (c *FuncCtx) traceTime(st *State, f string) string {
+	k := traceKey(f) + "|t"
+	if t, ok := st.heap[k]; ok {
+		return t
+	}
+	name := "T_" + traceIdent(f) + "_time"
+	c.declOnce(name, "(Array Int Int)")
+	st.heap[k] = name
+	return name
+}
+
+// traceRes: array of the i-th result of each recorded call.
+func (c *FuncCtx) traceRes(st *State, f string, i int, sort string) string {
+	k := fmt.Sprintf("%s|r%d", traceKey(f), i)
+	if t, ok := st.heap[k]; ok {
+		return t
+	}
+	name := fmt.Sprintf("T_%s_r%d", traceIdent(f), i)
+	c.declOnce(name, fmt.Sprintf("(Array Int %s)", sort))
+	st.heap[k] = name
+	return name
+}
+
+func (e *Engine) traceResSig(f string) []types.Type {
+	var out []types.Type
+	if fd, ok := e.funcs[f]; ok {
+		sig := e.info.Defs[fd.Name].(*types.Func).Type().(*types.Signature)
+		for i := 0; i < sig.Results().Len(); i++ {
+			out = append(out, sig.Results().At(i).Type())
+		}
+		return out
+	}
+	if i := strings.LastIndex(f, "."); i > 0 {
+		for _, imp := range e.pkg.Types.Imports() {
+			if imp.Name() == f[:i] {
+				if fn, ok := imp.Scope().Lookup(f[i+1:]).(*types.Func); ok {
+					sig := fn.Type().(*types.Signature)
+					for k := 0; k < sig.Results().Len(); k++ {
+						out = append(out, sig.Results().At(k).Type())
+					}
+					return out
+				}
+			}
+		}
+		if tn, _ := e.pkg.Types.Scope().Lookup(f[:i]).(*types.TypeName); tn != nil {
+			obj, _, _ := types.LookupFieldOrMethod(tn.Type(), true, e.pkg.Types, f[i+1:])
+			var sig *types.Signature
+			switch o := obj.(type) {
+			case *types.Func:
+				sig = o.Type().(*types.Signature)
+			case *types.Var:
+				sig, _ = under(o.Type()).(*types.Signature)
+			}
+			if sig != nil {
+				for k := 0; k < sig.Results().Len(); k++ {
+					out = append(out, sig.Results().At(k).Type())
+				}
+			}
+		}
+	}
+	return out
+}
+
+// traceResults records the results of the call just appended.
+func (c *FuncCtx) traceResults(st *State, f string, results []*Val) {
+	rs := c.eng.traceResSig(f)
+	n := c.traceN(st, f) // already incremented
+	at := mkSub(n, "1")
+	for i, rt := range rs {
+		if i >= len(results) {
+			break
+		}
+		srt := c.eng.sortOf(rt)
+		arr := c.traceRes(st, f, i, srt)
+		st.heap[fmt.Sprintf("%s|r%d", traceKey(f), i)] = c.shareTerm(st, mkStore(arr, at, results[i].S), fmt.Sprintf("(Array Int %s)", srt), "T_"+traceIdent(f))
+	}
+}
+
 func (c *FuncCtx) traceAppend(st *State, f string, vals []*Val) {
 	sig := c.eng.traceSig(f)
 	n := c.traceN(st, f)
+	clk := c.traceClock(st)
+	st.heap[traceKey(f)+"|t"] = mkStore(c.traceTime(st, f), n, clk)
+	st.heap["τ|$clock"] = mkAdd(clk, "1")
 	for i := range sig {
 		if i >= len(vals) {
 			break
@@ -118,6 +221,26 @@ func (c *FuncCtx) traceHavoc(st *State, f string) {
 		st.heap[fmt.Sprintf("%s|%d", traceKey(f), i)] = na
 	}
 	st.heap[traceKey(f)+"|n"] = nn
+	// times and results of the recorded prefix are kept as well
+	keep := func(key, arr, sort string) {
+		na := c.fresh("T_"+traceIdent(f), fmt.Sprintf("(Array Int %s)", sort))
+		bv := c.bvar("i")
+		st.assume(fmt.Sprintf("(forall ((%s Int)) (=> (and (<= 0 %s) (< %s %s)) (= (select %s %s) (select %s %s))))", bv, bv, bv, n, na, bv, arr, bv))
+		st.heap[key] = na
+	}
+	told := c.traceTime(st, f)
+	keep(traceKey(f)+"|t", told, "Int")
+	for i, rt := range c.eng.traceResSig(f) {
+		srt := c.eng.sortOf(rt)
+		keep(fmt.Sprintf("%s|r%d", traceKey(f), i), c.traceRes(st, f, i, srt), srt)
+	}
+	// the clock moves forward; new records carry times in between
+	clk := c.traceClock(st)
+	nclk := c.fresh("T_clock", "Int")
+	st.assume(app("<=", clk, nclk))
+	st.heap["τ|$clock"] = nclk
+	bv := c.bvar("i")
+	st.assume(fmt.Sprintf("(forall ((%s Int)) (=> (and (<= %s %s) (< %s %s)) (and (<= %s (select %s %s)) (< (select %s %s) %s))))", bv, n, bv, bv, nn, clk, st.heap[traceKey(f)+"|t"], bv, st.heap[traceKey(f)+"|t"], bv, nclk))
 }
 
 // traceNameOf turns the first argument of ncalls/callarg (Option.Set, convert,
@@ -141,6 +264,20 @@ func (c *FuncCtx) traceBuiltin(st *State, name string, x *ast.CallExpr) ([]*Val,
 			limitf("ncalls(%s): no traced contract of that name", f)
 		}
 		return []*Val{{T: tInt, S: c.traceN(st, f), Sort: "Int"}}, true
+	case "calltime":
+		f := traceNameOf(x.Args[0])
+		i := c.eval(st, x.Args[1])
+		return []*Val{{T: tInt, S: mkSel(c.traceTime(st, f), i.S), Sort: "Int"}}, true
+	case "callres":
+		f := traceNameOf(x.Args[0])
+		i := c.eval(st, x.Args[1])
+		kv := c.eval(st, x.Args[2])
+		k, ok := isIntLit(kv.S)
+		rs := c.eng.traceResSig(f)
+		if !ok || int(k) >= len(rs) {
+			limitf("callres(%s, _, %s): bad result position", f, kv.S)
+		}
+		return []*Val{c.val(mkSel(c.traceRes(st, f, int(k), c.eng.sortOf(rs[k])), i.S), rs[k])}, true
 	case "callarg":
 		f := traceNameOf(x.Args[0])
 		if con := c.eng.spec.Contracts[f]; con == nil || !con.Traced {
